@@ -214,6 +214,10 @@ class DecisionMatrix(DiffEqualityMixin):
             else pd.DataFrame(data_df, copy=True)
         )
 
+        # DataFrame.copy(deep=True) shares the Index objects (and their buffers)
+        self._data_df.index = self._data_df.index.copy(deep=True)
+        self._data_df.columns = self._data_df.columns.copy(deep=True)
+
         self._objectives = np.array(objectives, dtype=object, copy=True)
         self._weights = np.array(weights, dtype=float, copy=True)
 
